@@ -657,6 +657,15 @@ Definition host_by_ip (s : state) (ip : N) : bytes :=
 Definition ip_by_host (s : state) (h : bytes) : N :=
   match hidx (ix s) h with Some ip => ip | None => 0 end.
 
+(** FindMACbyIP at instant [now]; 0 = no answer. *)
+Definition mac_by_ip (now : Z) (s : state) (ip : N) : N :=
+  if iidx (ix s) ip then
+    match lease_by_ip ip (leases s) with
+    | Some l => if l_static l || (now <? l_exp l)%Z then l_mac l else 0
+    | None => 0
+    end
+  else 0.
+
 (** GetLeases(LeasesAll) at instant [now]: static leases and dynamic ones
     that are neither expired nor block-listed. *)
 Definition active (now : Z) (s : state) : list lease :=
